@@ -84,14 +84,23 @@ theorem aggRows_length (hargs : List HTerm) (envs : List Env) (rows : List Tuple
     exact length_plain_add_agg hargs
   · cases he
 
+theorem aggRowsSpec_length (hargs : List HTerm) (envs : List Env) (rows : List Tuple)
+    (h : aggRowsSpec hargs envs = some rows) (t : Tuple) (ht : t ∈ rows) : t.length = hargs.length := by
+  unfold aggRowsSpec at h
+  obtain ⟨k, _, he⟩ := (optMapM_some_mem _ _ _ h t).1 ht
+  dsimp only at he
+  split at he
+  · cases he
+  · exact optMapM_length _ _ _ he
+
 theorem headOf_fits (r : Rule) (envs : List Env) (rows : List Tuple) (h : headOf r envs = some rows)
     (t : Tuple) (ht : t ∈ rows) : Fits r t := by
-  unfold headOf at h
+  unfold headOf headOfSpec at h
   cases hagg : r.hasAgg
   · rw [hagg] at h; simp only [Bool.false_eq_true, if_false] at h
     exact headRows_fits r hagg envs rows h t ht
   · rw [hagg] at h; simp only [if_true] at h
-    exact ⟨aggRows_length _ _ _ h t ht, fun hc => by rw [hagg] at hc; cases hc⟩
+    exact ⟨aggRowsSpec_length _ _ _ h t ht, fun hc => by rw [hagg] at hc; cases hc⟩
 
 theorem evalRuleM_fits (opt : Bool) (lk : String → List Tuple) (r : Rule) (rows : List Tuple)
     (h : evalRuleM opt lk r = some rows) (t : Tuple) (ht : t ∈ rows) : Fits r t := by
